@@ -429,6 +429,73 @@ func c11(r *engine.Run) {
 	if len(samples) == 0 {
 		samples = append(samples, "bf=10 T=10 out hours 9 size 317 limit 1024 precision 3 coins 1000")
 	}
+	// --- distribution configurations: the locked rule must follow the distribution PASSED to the call, also when one process
+	// evaluates several distributions one after the other (same number of locked addresses, different addresses; different counts)
+	{
+		third := fixKeys[3].Addr
+		mk := func(unlocked int, addrs ...cipher.Address) params.Distribution {
+			d := params.Distribution{MaxCoinSupply: uint64(60 * len(addrs)), InitialUnlockedCount: uint64(unlocked), UnlockAddressRate: 5, UnlockTimeInterval: 31536000}
+			for _, a := range addrs {
+				d.Addresses = append(d.Addresses, a.String())
+			}
+			if err := d.Validate(); err != nil {
+				r.Broken("distribution fixture invalid: %v", err)
+			}
+			return d
+		}
+		dists := []struct {
+			name   string
+			d      params.Distribution
+			locked map[cipher.Address]bool
+		}{
+			{"A(unlocked=U,locked=L)", mk(1, unlockedA, lockedA), map[cipher.Address]bool{lockedA: true}},
+			{"B(unlocked=L,locked=U)", mk(1, lockedA, unlockedA), map[cipher.Address]bool{unlockedA: true}},
+			{"C(unlocked=U,locked=L+T)", mk(1, unlockedA, lockedA, third), map[cipher.Address]bool{lockedA: true, third: true}},
+			{"D(all unlocked)", mk(2, unlockedA, lockedA), map[cipher.Address]bool{}},
+			{"E(unlocked=T,locked=O)", mk(1, third, ordinary), map[cipher.Address]bool{ordinary: true}},
+		}
+		spenders := []cipher.Address{ordinary, unlockedA, lockedA, third}
+		vp := params.VerifyTxn{BurnFactor: 2, MaxTransactionSize: 32768, MaxDropletPrecision: 3}
+		// every ordered sequence of three distributions, each queried for every spender
+		for a := range dists {
+			for b := range dists {
+				for c := range dists {
+					for _, di := range []int{a, b, c} {
+						for _, sp := range spenders {
+							ux := coin.UxOut{Head: coin.UxHead{Time: c11T0, BkSeq: 3}, Body: coin.UxBody{SrcTransaction: cipher.SumSHA256([]byte("cfg")), Address: sp, Coins: 2e6, Hours: 1000}}
+							var t coin.Transaction
+							t.In = []cipher.SHA256{ux.Hash()}
+							t.Sigs = make([]cipher.Sig, 1)
+							t.Out = []coin.TransactionOutput{{Address: ordinary, Coins: 2e6, Hours: 100}}
+							if err := t.UpdateHeader(); err != nil {
+								r.Broken("fixture txn: %v", err)
+							}
+							var err error
+							pan, msg := engine.Catch(func() { err = transaction.VerifySingleTxnSoftConstraints(t, c11T0, coin.UxArray{ux}, dists[di].d, vp) })
+							atomic.AddInt64(&evals, 1)
+							wantLocked := dists[di].locked[sp]
+							cs := map[string]interface{}{"sequence": []string{dists[a].name, dists[b].name, dists[c].name}, "evaluated": dists[di].name, "spender_is_locked": wantLocked}
+							if pan {
+								r.Failf("VerifySingleTxnSoftConstraints:panic:distribution-sequence", cs, "panic %s", msg)
+								continue
+							}
+							if wantLocked {
+								outcomes.Add("config:locked-rejected")
+								atomic.AddInt64(&nontrivial, 1)
+							} else {
+								outcomes.Add("config:accepted")
+							}
+							if (err != nil) != wantLocked {
+								r.Failf("VerifySingleTxnSoftConstraints:locked-rule-does-not-follow-the-distribution-passed", cs,
+									"after evaluating %s then %s then %s: distribution %s, spender locked=%v, verdict %v", dists[a].name, dists[b].name, dists[c].name, dists[di].name, wantLocked, err)
+							}
+						}
+					}
+				}
+			}
+		}
+	}
+
 	r.Finish(engine.Coverage{
 		"evaluations":          evals + hardEvals + friendEvals,
 		"soft_evaluations":     evals,
